@@ -478,6 +478,7 @@ func judge(run *ev.Run, st *stats, p *program, r *progResult, nb *nativeBatch) {
 		}
 		run.Obs("calls", 1)
 		run.Obs("vm_instructions", int64(b.steps))
+		run.ObsMax("vm_instructions_max_per_call", int64(b.steps))
 		run.Case(fsig+"|"+cs.Fn+"|"+cls, true)
 		if sig == "" {
 			run.Obs("calls_agreeing", 1)
